@@ -29,6 +29,10 @@ pub struct Case {
     /// the registration also carries a prf input: 0 no, 1 empty prf object, 2 eval.first
     #[serde(default)]
     pub prf: u8,
+    /// how the store is handed to the authenticator: 0 as it is, 1 inside Arc<tokio Mutex>, 2 inside
+    /// Arc<tokio RwLock>, 3 inside a bare tokio Mutex (the shipped lock wrappers)
+    #[serde(default)]
+    pub wrap: u8,
 }
 fn cap_of(c: u8) -> Cap {
     match c {
@@ -51,7 +55,15 @@ pub fn cases() -> Vec<Case> {
                         for prf in 0..3u8 {
                             for counter in [false, true] {
                                 let cfg = super::common::AuthCfg { counter, id_len: None, hmac, hmac_mc };
-                                v.push(Case { cap, resident_key, require_resident_key, cred_props, ctap: false, rk: false, cfg, prf });
+                                // the wrappers are spread over the configuration cells, and every
+                                // residentKey x capability cell meets every wrapper with default configuration
+                                let wrap = (hmac + prf + u8::from(counter)) % 4;
+                                v.push(Case { cap, resident_key, require_resident_key, cred_props, ctap: false, rk: false, cfg, prf, wrap });
+                                if hmac == 0 && prf == 0 && !counter {
+                                    for wrap in 1..4u8 {
+                                        v.push(Case { cap, resident_key, require_resident_key, cred_props, ctap: false, rk: false, cfg, prf, wrap });
+                                    }
+                                }
                             }
                         }
                     }
@@ -61,7 +73,9 @@ pub fn cases() -> Vec<Case> {
         for rk in [false, true] {
             for (hmac, hmac_mc) in [(0u8, false), (2, true)] {
                 let cfg = super::common::AuthCfg { counter: hmac != 0, id_len: (hmac != 0).then_some(32), hmac, hmac_mc };
-                v.push(Case { cap, resident_key: 0, require_resident_key: false, cred_props: 0, ctap: true, rk, cfg, prf: 0 });
+                for wrap in 0..4u8 {
+                    v.push(Case { cap, resident_key: 0, require_resident_key: false, cred_props: 0, ctap: true, rk, cfg, prf: 0, wrap });
+                }
             }
         }
     }
@@ -79,14 +93,28 @@ fn expected_rk(c: &Case, authenticator_supports_rk: bool) -> bool {
 }
 
 pub fn eval(c: &Case) -> (Vec<Finding>, String) {
-    let case = serde_json::to_value(c).unwrap();
-    let mut fs = vec![];
     let cap = cap_of(c.cap);
     let mut rs = RefStore::new();
     rs.cap = cap;
     let store = Shared::new(rs);
     let log = Log::new();
-    let auth = super::common::mk_auth(Logging { inner: store.clone(), log: log.clone() }, ScriptedUv::consenting(log.clone()), &c.cfg);
+    let logging = Logging { inner: store.clone(), log: log.clone() };
+    match c.wrap {
+        1 => eval_on(c, std::sync::Arc::new(tokio::sync::Mutex::new(logging)), store, log),
+        2 => eval_on(c, std::sync::Arc::new(tokio::sync::RwLock::new(logging)), store, log),
+        3 => eval_on(c, tokio::sync::Mutex::new(logging), store, log),
+        _ => eval_on(c, logging, store, log),
+    }
+}
+
+fn eval_on<S>(c: &Case, handed: S, store: Shared<RefStore>, log: Log) -> (Vec<Finding>, String)
+where
+    S: passkey_authenticator::CredentialStore<PasskeyItem = passkey_types::Passkey> + Send + Sync,
+{
+    let case = serde_json::to_value(c).unwrap();
+    let mut fs = vec![];
+    let cap = cap_of(c.cap);
+    let auth = super::common::mk_auth(handed, ScriptedUv::consenting(log.clone()), &c.cfg);
     let origin = url::Url::parse("https://example.com").unwrap();
     let supports = cap != Cap::OnlyNonDiscoverable;
     let rk = if c.ctap { c.rk } else { expected_rk(c, supports) };
@@ -242,7 +270,7 @@ pub fn run(ctx: &Ctx) -> Result<Run, String> {
     let n = cs.len() as u64;
     let mut run = Run::from_stats(
         "model_checking",
-        "complete product store capability(3) x residentKey{no selection, absent, discouraged, preferred, required} x requireResidentKey(2) x credProps{absent,false,true} x authenticator configuration {no hmac-secret, UV-only, with non-UV secret, with evaluation at creation} x prf input {absent, empty, eval} x counters on/off through Client::register + Client::authenticate, plus capability(3) x rk(2) through Authenticator::make_credential; each configuration runs a registration and two assertions with the new credential (default requirement with a verified user; verification discouraged with a present but unverified user); every configuration is non-trivial (it reaches save_credential or the required-rk refusal)",
+        "complete product store capability(3) x residentKey{no selection, absent, discouraged, preferred, required} x requireResidentKey(2) x credProps{absent,false,true} x authenticator configuration {no hmac-secret, UV-only, with non-UV secret, with evaluation at creation} x prf input {absent, empty, eval} x counters on/off, the store handed over bare / inside Arc<Mutex> / Arc<RwLock> / Mutex (the shipped lock wrappers), through Client::register + Client::authenticate, plus capability(3) x rk(2) through Authenticator::make_credential; each configuration runs a registration and two assertions with the new credential (default requirement with a verified user; verification discouraged with a present but unverified user); every configuration is non-trivial (it reaches save_credential or the required-rk refusal)",
         true,
         stats,
     );
